@@ -10,7 +10,7 @@ use std::collections::BTreeSet;
 
 pub static DEF: PropDef = PropDef {
     id: "C10",
-    rule: "random: trees (<=30 nodes: files of several sizes, directories, links to files/directories inside and outside the starting point, dangling links; random modes) plus an 'outside' area that links point into x test expressions before -delete whose truth cannot depend on earlier deletions (-name/-iname/-path/-type/-perm/-size, !, -o, depth bounds) x follow mode (-P; -L/-H with links only to outside targets, each at most once). The tree is first listed with 'find -depth TESTS -print' (list L) and 'find -depth -print' (all visited), then 'find ( TESTS -delete -printf D ) -o -printf N' runs on the same tree. Oracle: removal model over L in order (non-directory: removed; directory: removed iff empty by then); snapshot(after) == snapshot(before) - removed over the WHOLE case directory (outside area included); D/N lines in visit order (truth of -delete); exit != 0 and a diagnostic iff some removal failed. Non-trivial = a symbolic link is matched, or a directory removal fails, or an unmatched entry sits beside matched ones inside a matched directory. Distinct = distinct case JSON.",
+    rule: "random: trees (<=30 nodes: files of several sizes, directories, links to files/directories inside and outside the starting point, dangling links; random modes) plus an 'outside' area that links point into x test expressions before -delete whose truth cannot depend on earlier deletions (-name/-iname/-path/-type/-perm/-size, an inert -prune, !, -o, depth bounds) x follow mode (-P; -L/-H with links only to outside targets, each at most once). The tree is first listed with 'find -depth TESTS -print' (list L) and 'find -depth -print' (all visited), then 'find ( TESTS -delete -printf D ) -o -printf N' runs on the same tree. Oracle: removal model over L in order (non-directory: removed; directory: removed iff empty by then); snapshot(after) == snapshot(before) - removed over the WHOLE case directory (outside area included); D/N lines in visit order (truth of -delete); exit != 0 and a diagnostic iff some removal failed. Non-trivial = a symbolic link is matched, or a directory removal fails, or an unmatched entry sits beside matched ones inside a matched directory. Distinct = distinct case JSON.",
     assumptions: &[
         "listing and deleting run on the same tree (the listing run does not modify it), which is the statement's 'identical tree'",
         "-H/-L with a starting point that is itself a link to a directory is not generated here (known walkdir finding, see C02/C03)",
@@ -39,7 +39,7 @@ pub struct Case {
 fn gen_tests(g: &mut Gen, names: &[String]) -> Vec<String> {
     fn atom(g: &mut Gen, names: &[String]) -> Vec<String> {
         let s = |x: &str| x.to_string();
-        match g.weighted(&[5, 3, 3, 2, 2, 1, 2]) {
+        match g.weighted(&[5, 3, 3, 2, 2, 1, 2, 1]) {
             0 => {
                 let n = g.pick(names);
                 let first: String = n.chars().take(1).collect();
@@ -55,7 +55,10 @@ fn gen_tests(g: &mut Gen, names: &[String]) -> Vec<String> {
             3 => vec![s("-size"), g.pick(&["0", "+0", "-2", "1", "+1", "2k", "-1k", "1c", "+511c"]).to_string()],
             4 => vec![s("-perm"), g.pick(&["-100", "/222", "644", "-644", "/111", "755", "-0", "/4000"]).to_string()],
             5 => vec![s("-true")],
-            _ => vec![s("-false")],
+            6 => vec![s("-false")],
+            // always true, and without effect under the depth-first order that -delete implies
+            // (also when it stands before the -delete that switches that order on)
+            _ => vec![s("-prune")],
         }
     }
     let mut t = vec![];
